@@ -221,6 +221,11 @@ def rejections(v, case, cand, reduced, scratch):
     root_named = {a for r in case["roots"].values() for a in r["axes"]}
     for a in reduced[:2]:
         tests.append(("reduced-axis", {a: 0}))
+        # any selection that leaves part of a reduced axis out must be refused - also slices with open ends
+        if case["sizes"].get(a, 1) >= 2:
+            tests.append(("reduced-axis", {a: slice(None, None, 2)}))
+            tests.append(("reduced-axis", {a: slice(1, None)}))
+            tests.append(("reduced-axis", {a: slice(None, None, -2)}))
     for kind, fixed in tests:
         probes.log_clear(log)
         err = None
